@@ -21,6 +21,11 @@ type condSetInfo struct {
 	typ types.Type // pointer to API object struct
 }
 
+type condHandle struct {
+	info condSetInfo
+	t    Term
+}
+
 const statusPkg = "github.com/awslabs/operatorpkg/status."
 
 func isStatusConditionsAccessor(name string) bool {
@@ -149,6 +154,23 @@ func init() {
 
 func condStatusIs(cx *callCtx, status string, nilResult bool) Term {
 	e := cx.fr.eng
+	if h, ok := e.condHandles[cx.args[0]]; ok {
+		// quantified context: Get(t) was a symbolic handle; state the test over the object's list
+		conds, ct, _, _, _, ok := condSliceOf(e, cx.st, h.info)
+		if !ok {
+			cx.fr.unsup("condition handle over an object without Status.Conditions")
+		}
+		ti, si := condFieldIndex(ct, "Type"), condFieldIndex(ct, "Status")
+		typeAt := func(i Term) Term { return e.loadField(cx.st, fmt.Sprintf("(sidx %s %s)", conds, i), ct, ti) }
+		statAt := func(i Term) Term { return e.loadField(cx.st, fmt.Sprintf("(sidx %s %s)", conds, i), ct, si) }
+		first := fmt.Sprintf("(and (<= 0 cj) (< cj (s_len %s)) (= %s %s) (forall ((ci Int)) (! (=> (and (<= 0 ci) (< ci cj)) (not (= %s %s))) :pattern ((sidx %s ci)))))", conds, typeAt("cj"), h.t, typeAt("ci"), h.t, conds)
+		is := fmt.Sprintf("(exists ((cj Int)) (! (and %s (= %s %s)) :pattern ((sidx %s cj))))", first, statAt("cj"), e.vc.strLit(status), conds)
+		if nilResult {
+			none := fmt.Sprintf("(forall ((ci Int)) (! (=> (and (<= 0 ci) (< ci (s_len %s))) (not (= %s %s))) :pattern ((sidx %s ci))))", conds, typeAt("ci"), h.t, conds)
+			return or(none, is)
+		}
+		return is
+	}
 	ct := cx.argTs[0].Underlying().(*types.Pointer).Elem()
 	nr := "false"
 	if nilResult {
@@ -167,8 +189,19 @@ func condGet(cx *callCtx, info condSetInfo, t Term) (Term, types.Type) {
 		cx.fr.unsup("StatusConditions on %s: no Status.Conditions", info.typ)
 	}
 	ti := condFieldIndex(ct, "Type")
-	if vc.noname > 0 && strings.Contains(t, "q$") {
-		cx.fr.unsup("ConditionSet.Get with a quantified condition type")
+	if vc.noname > 0 {
+		// quantified / pure context: a symbolic handle, interpreted by the status tests
+		vc.decl("fn:condptr", "(declare-fun condptr (Loc Str) Loc)")
+		h := fmt.Sprintf("(condptr %s %s)", info.obj, t)
+		if e.condHandles == nil {
+			e.condHandles = map[string]condHandle{}
+		}
+		_, ct, _, _, _, ok := condSliceOf(e, cx.st, info)
+		if !ok {
+			cx.fr.unsup("StatusConditions on %s: no Status.Conditions", info.typ)
+		}
+		e.condHandles[h] = condHandle{info: info, t: t}
+		return h, ct
 	}
 	found := vc.freshAlways("cond.found", "Bool")
 	j := vc.freshAlways("cond.j", "Int")
